@@ -10,6 +10,7 @@ import (
 type stmt struct {
 	lines []string
 	calls []Call
+	refs  []Call // method references written in the statement (Kind KindMethodRef); not calls
 	what  string // evidence class of the statement (print, sleep, redundant, assert:<prefix>, plain, lookalike, new, helper, foreign, decoy)
 }
 
@@ -269,5 +270,39 @@ func (g *gen) build(f form, what string) stmt {
 // identicalTwo marks the calls of a redundant form: the principal call has two identical arguments.
 func markIdentical(s stmt) stmt {
 	s.calls[0].Identical = true
+	return s
+}
+
+// Method references passed as arguments. The enclosing call is an ordinary (plain) call; the reference itself is
+// recorded apart from the calls: whether `Thread::sleep` is "a Thread.sleep call" is not settled by the statement.
+type refForm struct {
+	tmpl  string
+	calls []cs
+	recv  string // left of "::"
+	name  string // right of "::"
+}
+
+var sleepRefForms = []refForm{
+	{"waitWith(Thread::sleep, {N}0);", []cs{{KindPlain, fUnq, "", "waitWith", 2}}, "Thread", "sleep"},
+	{"retry.run(Thread::sleep);", []cs{{KindPlain, fRecv, "retry", "run", 1}}, "Thread", "sleep"},
+}
+
+var printRefForms = []refForm{
+	{"items.forEach(System.out::println);", []cs{{KindPlain, fRecv, "items", "forEach", 1}}, "System.out", "println"},
+	{"values.forEach(System.out::print);", []cs{{KindPlain, fRecv, "values", "forEach", 1}}, "System.out", "print"},
+}
+
+var assertRefForms = []refForm{
+	{"flags.forEach(Assert::assertTrue);", []cs{{KindPlain, fRecv, "flags", "forEach", 1}}, "Assert", "assertTrue"},
+	{"results.forEach(Assertions::assertNotNull);", []cs{{KindPlain, fRecv, "results", "forEach", 1}}, "Assertions", "assertNotNull"},
+}
+
+var neutralRefForms = []refForm{
+	{"names.forEach(builder::append);", []cs{{KindPlain, fRecv, "names", "forEach", 1}}, "builder", "append"},
+}
+
+func (g *gen) buildRef(f refForm, what string) stmt {
+	s := g.build(form{f.tmpl, f.calls}, what)
+	s.refs = []Call{{Kind: KindMethodRef, Form: f.recv + "::" + f.name, Recv: f.recv, Name: f.name, Prefix: PrefixOf(f.name), Text: s.lines[0]}}
 	return s
 }
